@@ -261,6 +261,58 @@ def rule_stack_discipline(F, rep, rid, pred, floor, where_txt):
         raise AnalysisBroken('%s: only %d pushes on shared stacks found in %s (%d confirmed)' % (rid, n, where_txt, floor))
 
 
+def path_verdicts(F, f):
+    """For a bool function that keeps its recursion path in a vector parameter (membership test, push_back, pop_back on the same parameter):
+    the returns that can be `true` without being the verdict of a recursive call, and whether the membership test was evaluated on every
+    path to them.  Yields (parameter name, test node, return node, ok)."""
+    from engines import single_def
+    if (f.j.get('ret') or '') != 'bool':
+        return
+    conts = [p for p in f.params if 'std::vector<' in p['t'] and p['t'].rstrip().endswith('&') and 'const' not in p['t'].split('std::vector')[0]]
+    cfg = f.cfg()
+    for p in conts:
+        def on_p(c):
+            return any(r.get('k') == 'Ref' and r.get('d') == p['d'] for r in walk(c))
+        pushes = [c for c in f.walk() if c.get('k') == 'Call' and c.get('mc') and c.get('fn') in ('push_back', 'emplace_back') and c['c'][0].get('k') == 'Ref' and c['c'][0].get('d') == p['d']]
+        pops = [c for c in f.walk() if c.get('k') == 'Call' and c.get('mc') and c.get('fn') == 'pop_back' and c['c'][0].get('k') == 'Ref' and c['c'][0].get('d') == p['d']]
+        tests = [c for c in f.walk() if c.get('k') == 'Call' and c.get('fn') in ('find', 'find_if', 'any_of', 'count', 'count_if') and on_p(c) and f.enclosing_lambda(c) is None]
+        if not pushes or not pops or not tests:
+            continue
+        for r in f.walk():
+            if r.get('k') != 'Return' or not r.get('c') or f.enclosing_lambda(r) is not None:
+                continue
+            e = r['c'][0]
+            while e.get('k') in ('Paren', 'Cast') and len(e.get('c', [])) == 1:
+                e = e['c'][0]
+            if e.get('k') == 'Bool' and not e.get('v'):
+                continue
+            if e.get('k') == 'Ref' and e.get('dk') == 'local':
+                i_ = single_def(f, e.get('d'))
+                if i_ is not None:
+                    e = i_
+            # the verdict of a recursive call (directly or through a sibling that calls back) is not this activation's own verdict
+            if any(c.get('k') == 'Call' and not c.get('opc') and any(ck == f.key or f.key in F.reach([ck]) for ck in F.callee_keys(c)) for c in walk(e)):
+                continue
+            yield p['n'], tests[0], r, any(cfg.node_dominates(t, r) for t in tests)
+
+
+def rule_path_verdicts(F, rep, rid, pred, floor, where_txt):
+    from facts import AnalysisBroken
+    rep.rule(rid, 'a bool function of %s that keeps the path of its recursion in a vector parameter (membership test, push_back, pop_back) gives a positive answer of its own only after the membership test: '
+                  'a shortcut in front of it ("already checked, fine") answers true for an entity that refers back to one still being walked, and the callers that rely on the verdict (flattening, unit reduction) then recurse without end' % where_txt)
+    n = 0
+    for g in F.funcs.values():
+        if not pred(g):
+            continue
+        for pname, t, r, ok in path_verdicts(F, g):
+            n += 1
+            rep.check(ok, rid, '%s|%s|return %s' % (g.short.split('::')[-1], pname, render(r['c'][0])[:30]), g.where(r),
+                      '%s can return `%s` without having tested whether the entity is already on `%s` (`%s` is not evaluated on every path to this return)' % (g.short, render(r['c'][0])[:40], pname, render(t)[:50]),
+                      'after the membership test on ' + pname)
+    if n < floor:
+        raise AnalysisBroken('%s: only %d own verdicts of path-keeping functions found in %s (%d confirmed)' % (rid, n, where_txt, floor))
+
+
 WALK_SEARCHES = {'voiFirstOccurrence': 'a search: returns at the first occurrence', 'component': 'lookup', 'takeComponent': 'lookup'}
 
 
